@@ -30,7 +30,7 @@ RULE = ("layer 1/2: every rooted tree of order <= 8 (200 trees, exhaustive) x {a
         "as constant state components; polynomial Hamiltonians) x integrator x grid; non-trivial = non-linear or non-autonomous instance whose "
         "coarsest-resolution error is above the rounding floor; distinct by (tree, entry point) resp. full instance")
 ASSUMPTIONS = [
-    "fixed-step order: the better of the two finest pairwise log2 error ratios over step halvings (or, when they are still rising and the finest is within 1 of p, their linear extrapolation to h->0) >= p - 0.5, using only resolutions with >= 8 steps and errors in [1e-11, 1e-2]*scale; fewer than 2 ratios => counted trivial, never failed",
+    "fixed-step order: the better of the two finest pairwise log2 error ratios over step halvings (or, when they are still rising and the finest is within 1 of p, their linear extrapolation to h->0) >= p - 0.5 (p - 0.75 when only two ratios are usable), using only resolutions with >= 8 steps and errors in [1e-11, 1e-2]*scale; fewer than 2 ratios => counted trivial, never failed",
     "adaptive accuracy (at tol and tol/100; when the error at tol is >= the tolerance itself it must also drop >= 1.5x at tol/100): error at every requested time <= 60*max(1, r_scipy)*(rtol*|y|+atol) (calibration: largest observed value of err/(tol*max(1,r_scipy)) over 3100 thorough cases was 16) (the RMS error norm is diluted ~3.6x by the 35 constant parameter components of the template) where r_scipy is SciPy's own error ratio for the same method family on the same instance, instances with ||J||*T <= 6",
     "reference solutions: SciPy DOP853 at rtol=atol=1e-13 on an independently written NumPy field",
 ]
@@ -339,7 +339,9 @@ def eval_ode(case, ctx):
                  sample={"case": case, "errors": good, "log2_ratios": ratios} if nt and ctx.evaluations % 9 == 0 else None)
         if len(ratios) >= 2:
             med = _observed_order(ratios, p)
-            if med < p - 0.5:
+            # with only two ratios the data are the coarsest usable ones (the finer halvings fell under the floor): the
+            # high-order schemes approach their asymptotic order slowly there, so 0.75 instead of 0.5 is allowed
+            if med < p - (0.5 if len(ratios) >= 3 else 0.75):
                 ctx.fail("observed-order-below-declared:fixed%d" % p, case,
                          "declared order %d, best of the two finest log2 error ratios %.2f from errors %s" % (p, med, ["%d:%.2e" % ne for ne in good]))
         return
@@ -491,7 +493,7 @@ def eval_ham(case, ctx):
         ratios = [math.log2(good[i][1] / good[i + 1][1]) for i in range(len(good) - 1) if good[i + 1][0] == 2 * good[i][0]]
         nt = ("ham", repr(case)) if len(ratios) >= 2 else None
         ctx.case(nontrivial=nt, cls=["ham:fixed%d" % p, "ham:nonsep" if case["H"]["nonsep"] else "ham:sep"])
-        if len(ratios) >= 2 and _observed_order(ratios, p) < p - 0.5:
+        if len(ratios) >= 2 and _observed_order(ratios, p) < p - (0.5 if len(ratios) >= 3 else 0.75):
             ctx.fail("observed-order-below-declared:hamiltonian-fixed%d" % p, case,
                      "declared order %d, best of the two finest log2 ratios %.2f, errors %s" % (p, _observed_order(ratios, p), ["%d:%.2e" % ne for ne in good]))
     else:
